@@ -182,12 +182,15 @@ def judge(ctx, FST, root, lines_before, rect, text, domain, hist, MOD):
             best = None
             for n in ast.walk(tree):
                 if isinstance(n, ast.stmt) and n.lineno <= line <= n.end_lineno and (best is None or (n.end_lineno - n.lineno) <= (best[1] - best[0])):
-                    best = (n.lineno, n.end_lineno)
+                    best = (n.lineno, n.end_lineno, n.end_col_offset)
             return best
+        so, sn = (span_at(old_tree, ln + 1), span_at(ref, ln + 1)) if old_tree is not None else (None, None)
+        if so and sn and so[1] == ln + 1 and ln == end_ln:
+            so = (so[0], so[1], so[2] + len(text.encode()) - len(removed.encode()))   # where the statement would end if only the splice had moved it
         if (old_tree is not None and stmt_containers(ref) != stmt_containers(old_tree)) or nl:
             key = 'stmt-count-change'
-        elif old_tree is not None and span_at(old_tree, ln + 1) != span_at(ref, ln + 1):
-            key = 'stmt-count-change'   # the edit moves the END of the statement (e.g. removes a string's closing quotes so that it runs on into the next lines): statement boundaries change although the counts balance
+        elif old_tree is not None and so != sn:
+            key = 'stmt-count-change'   # the edit moves the END of the statement (e.g. removes a string's closing quote so that it runs on into a comment or the next lines): statement boundaries change although the counts balance
         elif ':' in text or ':' in removed:
             key = 'block-header-colon-edit-refused-although-whole-valid'   # the header (or the statement) is re-parsed alone; where its ':' is decides what belongs to it
     msg = (f'put_src({text!r}, {ln}, {col}, {end_ln}, {end_col}) [{domain}] on {short(src, 300)!r}: {kind}; '
